@@ -13,6 +13,7 @@ import (
 	"runtime/debug"
 	"slices"
 	"strings"
+	"time"
 
 	"golang.org/x/tools/go/ssa"
 )
@@ -54,6 +55,8 @@ type interpreter struct {
 	depth              int
 	funcsSeen          map[*ssa.Function]bool
 	heldLog            []string
+	initRoot           *ssa.Function
+	skipExternal       *ssa.Function
 }
 
 type spawn struct {
@@ -82,6 +85,7 @@ type frame struct {
 	panic            interface{}
 	phitemps         []value // temporaries for parallel phi assignment
 	skipPhis         bool    // phis of fr.block were already evaluated by if-conversion
+	retByConvert     bool
 }
 
 func (fr *frame) get(key ssa.Value) value {
@@ -145,6 +149,9 @@ func (i *interpreter) ensureInit(pkg *ssa.Package) {
 	if i.trace {
 		fmt.Fprintf(os.Stderr, "## lazy init of %s\n", pkg.Pkg.Path())
 	}
+	saved := i.initRoot
+	i.initRoot = initFn
+	defer func() { i.initRoot = saved }()
 	callSSA(i, nil, token.NoPos, initFn, nil, nil)
 }
 
@@ -270,6 +277,10 @@ func visitInstr(fr *frame, instr ssa.Instruction) continuation {
 			}
 		case symBool:
 			if fr.ifConvert(instr, c) {
+				if fr.retByConvert {
+					fr.retByConvert = false
+					return kReturn
+				}
 				return kJump
 			}
 			if fr.branch(c.t, "if") {
@@ -435,7 +446,10 @@ func visitInstr(fr *frame, instr ssa.Instruction) continuation {
 func (fr *frame) symIndexAddr(elems []value, s symInt) value {
 	tb := fr.i.tb
 	n := len(elems)
-	inb := tb.Cmp(OpBvUlt, s.t, tb.Const(uint64(n), s.t.W)) // unsigned compare also catches negatives
+	inb := tb.True()
+	if s.t.W >= 64 || uint64(n) <= mask(s.t.W) {
+		inb = tb.Cmp(OpBvUlt, s.t, tb.Const(uint64(n), s.t.W)) // unsigned compare also catches negatives
+	}
 	if n == 0 || !fr.branch(inb, "index-in-range") {
 		panic(targetPanic{fmt.Sprintf("runtime error: index out of range [symbolic] with length %d", n)})
 	}
@@ -639,8 +653,14 @@ func callSSA(i *interpreter, caller *frame, callpos token.Pos, fn *ssa.Function,
 	if i.trace {
 		fmt.Fprintf(os.Stderr, "%s> %s\n", strings.Repeat(" ", i.depth), fn)
 	}
+	if fn.Synthetic == "package initializer" && fn != i.initRoot {
+		// initializers of imported packages run lazily, on first use of one of their variables
+		return nil
+	}
 	if fn.Parent() == nil {
-		if ext := i.eng.external(fn); ext != nil {
+		if i.skipExternal == fn {
+			i.skipExternal = nil
+		} else if ext := i.eng.external(fn); ext != nil {
 			return ext(fr, args)
 		}
 	}
@@ -740,6 +760,9 @@ func runFrame(fr *frame) {
 func (i *interpreter) loopTick(fr *frame) {
 	if i.steps > i.eng.MaxSteps {
 		panic(pathAbort{"budget", fmt.Sprintf("step budget %d exhausted in %s", i.eng.MaxSteps, fr.fn)})
+	}
+	if i.steps&0xfff == 0 && !i.eng.Deadline.IsZero() && time.Now().After(i.eng.Deadline) {
+		panic(pathAbort{"budget", "wall-clock deadline reached in " + fr.fn.String()})
 	}
 }
 
@@ -1121,112 +1144,335 @@ func (fr *frame) pureInstr(instr ssa.Instruction) bool {
 	return false
 }
 
-// armInfo describes one arm of a candidate diamond.
-func straightLine(b *ssa.BasicBlock) ([]ssa.Instruction, *ssa.BasicBlock, bool) {
-	if len(b.Preds) != 1 {
-		return nil, nil, false
-	}
-	n := len(b.Instrs)
-	j, ok := b.Instrs[n-1].(*ssa.Jump)
-	if !ok {
-		return nil, nil, false
-	}
-	_ = j
-	return b.Instrs[:n-1], b.Succs[0], true
+// ---- post-dominators (per function, cached) ----
+
+type pdomInfo struct {
+	ipdom []int // immediate post-dominator block index; -1 = virtual exit
 }
 
-// ifConvert tries to turn "if c {pure} else {pure}; join: phi" into ite terms.
-// On success it sets fr.block to the join block with phis evaluated and returns true.
+func (e *Engine) postDom(fn *ssa.Function) *pdomInfo {
+	e.mu.Lock()
+	if e.pdomCache == nil {
+		e.pdomCache = make(map[*ssa.Function]*pdomInfo)
+	}
+	if pi, ok := e.pdomCache[fn]; ok {
+		e.mu.Unlock()
+		return pi
+	}
+	e.mu.Unlock()
+	n := len(fn.Blocks)
+	// iterative set-based algorithm on small CFGs: pdom[b] as bitset over n+1 nodes (n = exit)
+	words := (n + 1 + 63) / 64
+	full := make([]uint64, words)
+	for k := 0; k <= n; k++ {
+		full[k/64] |= 1 << uint(k%64)
+	}
+	pd := make([][]uint64, n+1)
+	for k := 0; k < n; k++ {
+		pd[k] = append([]uint64{}, full...)
+	}
+	pd[n] = make([]uint64, words)
+	pd[n][n/64] |= 1 << uint(n%64)
+	changed := true
+	for changed {
+		changed = false
+		for k := n - 1; k >= 0; k-- {
+			b := fn.Blocks[k]
+			nw := append([]uint64{}, full...)
+			succs := []int{}
+			for _, s := range b.Succs {
+				succs = append(succs, s.Index)
+			}
+			if len(succs) == 0 {
+				succs = []int{n}
+			}
+			for _, s := range succs {
+				for w := range nw {
+					nw[w] &= pd[s][w]
+				}
+			}
+			nw[k/64] |= 1 << uint(k%64)
+			for w := range nw {
+				if nw[w] != pd[k][w] {
+					changed = true
+				}
+			}
+			pd[k] = nw
+		}
+	}
+	count := func(bs []uint64) int {
+		c := 0
+		for _, w := range bs {
+			for ; w != 0; w &= w - 1 {
+				c++
+			}
+		}
+		return c
+	}
+	pi := &pdomInfo{ipdom: make([]int, n)}
+	for k := 0; k < n; k++ {
+		// immediate post-dominator: the strict post-dominator with the largest pdom set
+		best, bestCnt := -1, -1
+		for j := 0; j <= n; j++ {
+			if j == k || pd[k][j/64]&(1<<uint(j%64)) == 0 {
+				continue
+			}
+			c := count(pd[j])
+			if c > bestCnt {
+				best, bestCnt = j, c
+			}
+		}
+		if best == n {
+			best = -1
+		}
+		pi.ipdom[k] = best
+	}
+	e.mu.Lock()
+	e.pdomCache[fn] = pi
+	e.mu.Unlock()
+	return pi
+}
+
+const maxRegionBlocks = 24
+
+// ifConvert tries to execute the single-entry acyclic region between a symbolic If and its
+// immediate post-dominator under guards (if-conversion), merging values with ite terms.
+// Only side-effect-free instructions that cannot panic are executed speculatively; anything
+// else (calls, stores, possible faults, nested forks) makes it give up (return false) and the
+// caller forks instead.
 func (fr *frame) ifConvert(instr *ssa.If, c symBool) bool {
-	if fr.i.eng.NoIfConvert {
+	if fr.i.eng.NoIfConvert || fr.i.p.noBranch > 0 {
 		return false
 	}
 	cur := fr.block
-	tB, fB := cur.Succs[0], cur.Succs[1]
-	var tIns, fIns []ssa.Instruction
+	pi := fr.i.eng.postDom(fr.fn)
+	jIdx := pi.ipdom[cur.Index]
 	var join *ssa.BasicBlock
-	tPred, fPred := tB, fB // predecessor of join on each side
-	tArm, tJoin, tOK := straightLine(tB)
-	fArm, fJoin, fOK := straightLine(fB)
-	switch {
-	case tOK && fOK && tJoin == fJoin:
-		join, tIns, fIns = tJoin, tArm, fArm
-	case tOK && tJoin == fB:
-		// triangle: true arm falls into false successor
-		join, tIns, fIns = fB, tArm, nil
-		fPred = cur
-	case fOK && fJoin == tB:
-		join, tIns, fIns = tB, nil, fArm
-		tPred = cur
-	default:
+	if jIdx >= 0 {
+		join = fr.fn.Blocks[jIdx]
+	}
+	// collect region blocks in topological order (DFS post-order reversed), detect cycles
+	state := map[*ssa.BasicBlock]int{} // 1 = on stack, 2 = done
+	var order []*ssa.BasicBlock
+	okRegion := true
+	var dfs func(b *ssa.BasicBlock)
+	dfs = func(b *ssa.BasicBlock) {
+		if !okRegion || b == join {
+			return
+		}
+		if b == cur {
+			okRegion = false // loop back to the branch
+			return
+		}
+		switch state[b] {
+		case 1:
+			okRegion = false
+			return
+		case 2:
+			return
+		}
+		state[b] = 1
+		if len(state) > maxRegionBlocks {
+			okRegion = false
+			return
+		}
+		for _, s := range b.Succs {
+			dfs(s)
+		}
+		state[b] = 2
+		order = append(order, b)
+	}
+	dfs(cur.Succs[0])
+	dfs(cur.Succs[1])
+	if !okRegion {
 		return false
 	}
-	if len(tIns)+len(fIns) > 24 {
-		return false
-	}
-	// join must start with phis covering both preds; other instructions unaffected
-	tIdx := slices.Index(join.Preds, tPred)
-	fIdx := slices.Index(join.Preds, fPred)
-	if tIdx < 0 || fIdx < 0 || tIdx == fIdx {
-		return false
-	}
-	// speculatively execute arms
-	saved := make(map[ssa.Value]value)
-	var order []ssa.Value
-	exec := func(ins []ssa.Instruction) bool {
-		for _, in := range ins {
-			if _, isPhi := in.(*ssa.Phi); isPhi {
+	slices.Reverse(order)
+	inRegion := func(b *ssa.BasicBlock) bool { return state[b] == 2 }
+	// every region block must be entered only from the region or from cur; terminators must be If/Jump/Return
+	for _, b := range order {
+		for _, p := range b.Preds {
+			if p != cur && !inRegion(p) {
 				return false
 			}
-			if !fr.pureInstr(in) {
+		}
+		switch b.Instrs[len(b.Instrs)-1].(type) {
+		case *ssa.If, *ssa.Jump:
+		case *ssa.Return:
+			if join != nil {
 				return false
 			}
-			if visitInstrPure(fr, in) == false {
-				return false
-			}
-			if v, ok := in.(ssa.Value); ok {
-				order = append(order, v)
-			}
-		}
-		return true
-	}
-	undo := func() {
-		for _, v := range order {
-			delete(fr.env, v)
-		}
-		_ = saved
-	}
-	if !exec(tIns) || !exec(fIns) {
-		undo()
-		return false
-	}
-	// evaluate phis of join
-	var phis []*ssa.Phi
-	for _, in := range join.Instrs {
-		if phi, ok := in.(*ssa.Phi); ok {
-			phis = append(phis, phi)
-		} else {
-			break
-		}
-	}
-	vals := make([]value, len(phis))
-	for k, phi := range phis {
-		a, b := fr.get(phi.Edges[tIdx]), fr.get(phi.Edges[fIdx])
-		m, ok := fr.i.iteValue(c.t, a, b)
-		if !ok {
-			undo()
+		default:
 			return false
 		}
-		vals[k] = m
 	}
-	// values defined in arms are used only via phis if SSA dominance holds (arms do not dominate join)
-	for k, phi := range phis {
-		fr.env[phi] = vals[k]
+	if join == nil && fr.fn.Recover != nil {
+		return false
 	}
-	fr.i.p.stats.IfConverted++
-	fr.prevBlock = tPred
-	fr.block = join
-	fr.skipPhis = true
+	if join == nil && fr.defers != nil {
+		// results may be modified by deferred functions: keep it simple
+		return false
+	}
+	i := fr.i
+	tb := i.tb
+	type edge struct{ from, to *ssa.BasicBlock }
+	eguard := map[edge]*Term{}
+	addEdge := func(from, to *ssa.BasicBlock, g *Term) {
+		k := edge{from, to}
+		if old, ok := eguard[k]; ok {
+			eguard[k] = tb.Or(old, g)
+		} else {
+			eguard[k] = g
+		}
+	}
+	addEdge(cur, cur.Succs[0], c.t)
+	addEdge(cur, cur.Succs[1], tb.Not(c.t))
+	var defined []ssa.Value
+	undo := func() bool {
+		for _, v := range defined {
+			delete(fr.env, v)
+		}
+		return false
+	}
+	// mergePhis computes the values of b's phis from the guarded incoming edges.
+	mergePhis := func(b *ssa.BasicBlock) ([]*ssa.Phi, []value, bool) {
+		var phis []*ssa.Phi
+		for _, in := range b.Instrs {
+			if phi, ok := in.(*ssa.Phi); ok {
+				phis = append(phis, phi)
+			} else {
+				break
+			}
+		}
+		vals := make([]value, len(phis))
+		for k, phi := range phis {
+			var acc value
+			have := false
+			for pidx, p := range b.Preds {
+				g, ok := eguard[edge{p, b}]
+				if !ok || (g.IsConst() && g.K == 0) {
+					continue
+				}
+				v := fr.get(phi.Edges[pidx])
+				if !have {
+					acc, have = v, true
+					continue
+				}
+				m, ok := i.iteValue(g, v, acc)
+				if !ok {
+					return nil, nil, false
+				}
+				acc = m
+			}
+			if !have {
+				return nil, nil, false
+			}
+			vals[k] = acc
+		}
+		return phis, vals, true
+	}
+	type retEdge struct {
+		g    *Term
+		vals []value
+	}
+	var rets []retEdge
+	for _, b := range order {
+		// block guard
+		g := tb.False()
+		for _, p := range b.Preds {
+			if eg, ok := eguard[edge{p, b}]; ok {
+				g = tb.Or(g, eg)
+			}
+		}
+		if g.IsConst() && g.K == 0 {
+			continue // dead under this path condition
+		}
+		phis, vals, ok := mergePhis(b)
+		if !ok {
+			return undo()
+		}
+		for k, phi := range phis {
+			fr.env[phi] = vals[k]
+			defined = append(defined, phi)
+		}
+		body := b.Instrs[len(phis) : len(b.Instrs)-1]
+		for _, in := range body {
+			if !fr.pureInstr(in) {
+				return undo()
+			}
+			if !visitInstrPure(fr, in) {
+				return undo()
+			}
+			if v, ok := in.(ssa.Value); ok {
+				defined = append(defined, v)
+			}
+		}
+		switch t := b.Instrs[len(b.Instrs)-1].(type) {
+		case *ssa.Jump:
+			addEdge(b, b.Succs[0], g)
+		case *ssa.If:
+			switch cv := fr.get(t.Cond).(type) {
+			case bool:
+				if cv {
+					addEdge(b, b.Succs[0], g)
+				} else {
+					addEdge(b, b.Succs[1], g)
+				}
+			case symBool:
+				addEdge(b, b.Succs[0], tb.And(g, cv.t))
+				addEdge(b, b.Succs[1], tb.And(g, tb.Not(cv.t)))
+			default:
+				return undo()
+			}
+		case *ssa.Return:
+			var rv []value
+			for _, r := range t.Results {
+				rv = append(rv, fr.get(r))
+			}
+			rets = append(rets, retEdge{g, rv})
+		}
+	}
+	if join != nil {
+		phis, vals, ok := mergePhis(join)
+		if !ok {
+			return undo()
+		}
+		for k, phi := range phis {
+			fr.env[phi] = vals[k]
+		}
+		// pick any predecessor with a live edge as prevBlock (phis are skipped anyway)
+		fr.prevBlock = join.Preds[0]
+		fr.block = join
+		fr.skipPhis = true
+		i.p.stats.IfConverted++
+		return true
+	}
+	// region ends in returns: merge result tuples
+	if len(rets) == 0 {
+		return undo()
+	}
+	acc := rets[len(rets)-1].vals
+	for k := len(rets) - 2; k >= 0; k-- {
+		nv := make([]value, len(acc))
+		for j := range acc {
+			m, ok := i.iteValue(rets[k].g, rets[k].vals[j], acc[j])
+			if !ok {
+				return undo()
+			}
+			nv[j] = m
+		}
+		acc = nv
+	}
+	switch len(acc) {
+	case 0:
+	case 1:
+		fr.result = acc[0]
+	default:
+		fr.result = tuple(acc)
+	}
+	fr.block = nil
+	fr.retByConvert = true
+	i.p.stats.IfConverted++
 	return true
 }
 
